@@ -65,7 +65,10 @@ HIST = {
                           (5, 1, 'AllIface5', 'NoDef', False, 6, False,
                            'twins')],
     ('C03', 'quick'): [(4, 2, 'AllIface4', 'NoDef', False, 4, False),
-                       (3, 3, 'AllIface3', 'NoDef', True, 5, False)],
+                       (3, 3, 'AllIface3', 'NoDef', True, 5, False),
+                       # equal-named twins: re-basing from one onto the other
+                       # assigns an EQUAL tuple of different objects
+                       (4, 1, 'AllIface4', 'NoDef', False, 5, False, 'twins')],
     ('C03', 'thorough'): [(4, 3, 'AllIface4', 'NoDef', False, 6, False),
                           (4, 2, 'AllIface4', 'NoDef', True, 6, False),
                           (4, 2, 'Mixed4', 'NoDef', False, 6, False)],
